@@ -10,6 +10,7 @@ import (
 	"testing"
 
 	sdkmath "cosmossdk.io/math"
+	"github.com/cosmos/cosmos-sdk/types/bech32"
 	skytypes "github.com/palomachain/paloma/v2/x/skyway/types"
 	valsettypes "github.com/palomachain/paloma/v2/x/valset/types"
 )
@@ -279,6 +280,79 @@ func TestC11(t *testing.T) {
 			if v, ok := flip(e.SmartContractAddress); ok {
 				e.SmartContractAddress = v
 				mut("LightNodeSale.SmartContractAddress(case)", ln, &e)
+			}
+		}
+		// ---- monitor: the same value in another notation is another field value ----
+		// amounts: X and -X; strings: the respellings a lenient parser would identify with the original (another
+		// bech32 prefix over the same bytes, the all-upper-case bech32 form, 0x / 0X / no prefix of a hex address,
+		// surrounding blanks, a trailing NUL).  A hash that normalises any of them pools votes for different claims.
+		respell := func(v string) []string {
+			var out []string
+			if hrp, data, err := bech32.DecodeAndConvert(v); err == nil {
+				for _, alt := range []string{"cosmos", "paloma", "osmo"} {
+					if alt != hrp {
+						if e, err := bech32.ConvertAndEncode(alt, data); err == nil {
+							out = append(out, e)
+							break
+						}
+					}
+				}
+				if up := strings.ToUpper(v); up != v {
+					out = append(out, up)
+				}
+			}
+			switch {
+			case strings.HasPrefix(v, "0x"):
+				out = append(out, v[2:], "0X"+v[2:])
+			case strings.HasPrefix(v, "0X"):
+				out = append(out, v[2:], "0x"+v[2:])
+			case len(v) == 40:
+				out = append(out, "0x"+v)
+			}
+			out = append(out, v+" ", " "+v, v+"\x00")
+			return out
+		}
+		negate := func(a sdkmath.Int) (sdkmath.Int, bool) {
+			if a.IsNil() || a.IsZero() {
+				return a, false
+			}
+			return a.Neg(), true
+		}
+		{
+			if v, ok := negate(sp.Amount); ok {
+				c := *sp
+				c.Amount = v
+				mut("SendToPaloma.Amount(sign)", sp, &c)
+			}
+			if v, ok := negate(ln.Amount); ok {
+				c := *ln
+				c.Amount = v
+				mut("LightNodeSale.Amount(sign)", ln, &c)
+			}
+			type strField struct {
+				name string
+				get  func() string
+				mk   func(string) (c11Claim, c11Claim)
+			}
+			fields := []strField{
+				{"SendToPaloma.TokenContract", func() string { return sp.TokenContract }, func(v string) (c11Claim, c11Claim) { c := *sp; c.TokenContract = v; return sp, &c }},
+				{"SendToPaloma.EthereumSender", func() string { return sp.EthereumSender }, func(v string) (c11Claim, c11Claim) { c := *sp; c.EthereumSender = v; return sp, &c }},
+				{"SendToPaloma.PalomaReceiver", func() string { return sp.PalomaReceiver }, func(v string) (c11Claim, c11Claim) { c := *sp; c.PalomaReceiver = v; return sp, &c }},
+				{"SendToPaloma.CompassId", func() string { return sp.CompassId }, func(v string) (c11Claim, c11Claim) { c := *sp; c.CompassId = v; return sp, &c }},
+				{"BatchSendToRemote.TokenContract", func() string { return bs.TokenContract }, func(v string) (c11Claim, c11Claim) { c := *bs; c.TokenContract = v; return bs, &c }},
+				{"BatchSendToRemote.CompassId", func() string { return bs.CompassId }, func(v string) (c11Claim, c11Claim) { c := *bs; c.CompassId = v; return bs, &c }},
+				{"LightNodeSale.ClientAddress", func() string { return ln.ClientAddress }, func(v string) (c11Claim, c11Claim) { c := *ln; c.ClientAddress = v; return ln, &c }},
+				{"LightNodeSale.SmartContractAddress", func() string { return ln.SmartContractAddress }, func(v string) (c11Claim, c11Claim) { c := *ln; c.SmartContractAddress = v; return ln, &c }},
+				{"LightNodeSale.CompassId", func() string { return ln.CompassId }, func(v string) (c11Claim, c11Claim) { c := *ln; c.CompassId = v; return ln, &c }},
+			}
+			for _, f := range fields {
+				for _, v := range respell(f.get()) {
+					if v == f.get() {
+						continue
+					}
+					a, b := f.mk(v)
+					mut(f.name+"(respelling)", a, b)
+				}
 			}
 		}
 		// ---- monitor: moving a separator between adjacent free-form fields (multi-field change) ----
